@@ -172,3 +172,24 @@ Definition hints_ok (n : nat) (rows : list (list nat)) (comps : list comp) : boo
   nodup_b (units_of comps) && forallb (fun u => Nat.ltb u n) (units_of comps) && Nat.eqb (length (units_of comps)) n
   && forallb (fun c : comp => negb (Nat.eqb (length (snd c)) 0)) comps && negb (Nat.eqb (length comps) 0)
   && forallb (row_ok comps) rows.
+
+(* ---- the graph step of compile(): leaf units = greedy independent set in the order np.argsort(degrees) gives; the
+   connected components come from scipy and are an input of the model (checked by graph_ok) ---- *)
+Definition adj (rows : list (list nat)) (u v : nat) : bool :=
+  negb (Nat.eqb u v) && existsb (fun row => memb u row && memb v row) rows.
+Fixpoint select_leaves (rows : list (list nat)) (order avail leaves : list nat) : list nat :=
+  match order with
+  | [] => leaves
+  | u :: r => if memb u avail then select_leaves rows r (filter (fun v => negb (adj rows u v)) avail) (u :: leaves)
+              else select_leaves rows r avail leaves
+  end.
+Definition build_hints (n : nat) (rows : list (list nat)) (order : list nat) (components : list (list nat)) : list comp :=
+  let leaves := select_leaves rows order (seq 0 n) [] in
+  map (fun comp => (filter (fun u => memb u comp && negb (memb u leaves)) (seq 0 n),
+                    filter (fun u => memb u comp && memb u leaves) (seq 0 n))) components.
+Definition graph_ok (n : nat) (rows : list (list nat)) (order : list nat) (components : list (list nat)) : bool :=
+  nodup_b order && Nat.eqb (length order) n && forallb (fun u => Nat.ltb u n) order
+  && nodup_b (concat components) && Nat.eqb (length (concat components)) n && forallb (fun u => Nat.ltb u n) (concat components)
+  && negb (Nat.eqb (length components) 0) && forallb (fun c => negb (Nat.eqb (length c) 0)) components
+  && forallb (fun row => negb (Nat.eqb (length row) 0) && nodup_b row
+                         && existsb (fun comp => forallb (fun v => memb v comp) row) components) rows.
